@@ -93,6 +93,14 @@ pub const LEAVES: &[Leaf] = &[
     leaf("mapfile -t arr < <(simseq 2)"),
     leaf("time -p true 2>/dev/null"),
     leaf("! simseq 2 | simexit 1 drain"),
+    leaf("fredir_bad"),
+    leaf("fredir_bad a b"),
+    leaf("fredir_in"),
+    leaf("fredir_ok"),
+    leaf("V=x fredir_bad"),
+    leaf("fredir_arg /nonexistent_dir_c18/o"),
+    leaf("fredir_arg out4.txt"),
+    leaf("fredir_bad | simcat"),
     leaf("xtrue"),
     leaf("xexit 3"),
     leaf("V=x xexit 2"),
@@ -117,7 +125,11 @@ fbreak2() { for a in 1 2; do for b in 1 2; do break 2; done; done; }\n\
 freturn_nested() { for a in 1; do while true; do if true; then return 3; fi; done; done; }\n\
 fcat() { simcat; }\n\
 flocal() { local a=1 b=2; nosuchcmd_c18; }\n\
-fdeep() { if [ $1 -gt 0 ]; then V=$1 fdeep $(($1-1)); else return 5; fi; }\n";
+fdeep() { if [ $1 -gt 0 ]; then V=$1 fdeep $(($1-1)); else return 5; fi; }\n\
+fredir_bad() { echo x; } > /nonexistent_dir_c18/out\n\
+fredir_in() { simcat; } < missing_file\n\
+fredir_ok() { echo x; } > out3.txt\n\
+fredir_arg() { echo x; } > \"$1\"\n";
 
 pub fn render(case: &Case) -> String {
     let mut s = String::from(SETUP);
